@@ -20,6 +20,7 @@ TOP_LEVEL = {
     f'{UP}:AggregatedProgressCallback.__call__': 'progress callback', f'{UP}:AggregatedProgressCallback.flush': 'close callback',
     f'{BW}:BandwidthLimitedStream.read': 'called by botocore / the chunk reader through the file interface',
     # public API
+    f'{PP}:ProcessPoolDownloader.__exit__': 'with-block exit, called by the interpreter',
     f'{CRT}:CRTTransferManager._submit_transfer': 'called by the public upload/download/delete methods only',
 }
 
